@@ -278,11 +278,14 @@ class Matcher:
             raise _Reject("no-slot-admits-type")
         if not fits:
             raise _Reject("name-rule")
-        # names reserved by keyed children of this container (u1)
+        # names reserved by keyed children of this container (u1): unspecified only where the reserving item
+        # is declared BEFORE the slot that takes the section (the docs reserve such names, the statement does
+        # not); with the slot declared first the statement's letter - the header fits a declared slot by type
+        # and by name rule - decides, and the text conforms
         if n:
             for i, it in enumerate(c.items):
                 d = c.declared(it)
-                if d is not None and d == n and i not in fits:
+                if d is not None and d == n and i not in fits and i < fits[0]:
                     raise _Unspec("u1-header-name-equals-reserved-name")
         # first-fit without fall-through (u2): a wildcard slot that fits by type,
         # precedes the first full fit and refuses the name
